@@ -79,10 +79,29 @@ var Types = []TypeInfo{
 	{17, "struct2", "local", true},
 	{18, "ptr-named-basic", "local", false},
 	{19, "named-func", "local", false},
+	// Types 20.. are only used as Slice/Map element or parameter types
+	// (assignability lattice), never as flow values.
+	{20, "impl-struct", "local", true},    // i7, implements interface type 7
+	{21, "unnamed-slice", "local", false}, // []int64, underlying type of type 3
+	{22, "basic", "local", true},          // int64, underlying type of type 2
+	{23, "unnamed-func", "local", false},  // func() int64, underlying type of type 19
 }
 
-// NumTypes is the size of the type pool.
-var NumTypes = len(Types)
+// NumTypes is the number of type ids usable as flow values (ids 0..NumTypes-1).
+var NumTypes = 20
+
+// Assignable is Go assignability of a value of type id from to a
+// variable of type id to, for the types of the pool.
+func Assignable(from, to int) bool {
+	if from == to {
+		return true
+	}
+	switch [2]int{from, to} {
+	case [2]int{20, 7}, [2]int{21, 3}, [2]int{3, 21}, [2]int{19, 23}, [2]int{23, 19}:
+		return true
+	}
+	return false
+}
 
 // ---------------------------------------------------------------------
 // Programs.
@@ -137,6 +156,8 @@ type Slice struct {
 	Named  bool
 	Elem   int    // extra: element type id
 	Form   string // extra: lit|named
+	Param  int    // extra: type of the function's element parameter
+	Assign bool   // extra: Elem is assignable to Param
 }
 
 // Map is a cff.Map option.
@@ -152,6 +173,9 @@ type Map struct {
 	Key    int // extra
 	Val    int // extra
 	Form   string
+	KParam int  // extra: type of the function's key parameter
+	VParam int  // extra: type of the function's value parameter
+	Assign bool // extra: Key assignable to KParam and Val to VParam
 }
 
 // Program is one abstract program.
@@ -165,6 +189,7 @@ type Program struct {
 	TyAlias bool   // package ty imported under an alias
 	Quirk   string // source-level quirk for known streams ("" = none)
 	Site    string // call site of the directive: assign | return | if | arg
+	ModSub  bool   // flow lies in the subset modifier mode supports
 
 	// flow
 	Params  []int
@@ -300,7 +325,7 @@ func (p *Program) SpecLines() []string {
 	if site == "" {
 		site = "assign"
 	}
-	add("P %d meta stream=%s generic=%d tyalias=%d quirk=%s site=%s", p.PID, p.Stream, b2i(p.Generic), b2i(p.TyAlias), quirk, site)
+	add("P %d meta stream=%s generic=%d tyalias=%d quirk=%s site=%s modsubset=%d", p.PID, p.Stream, b2i(p.Generic), b2i(p.TyAlias), quirk, site, b2i(p.ModSub))
 	if p.Kind == "flow" {
 		if len(p.Params) > 0 {
 			add("P %d params %s", p.PID, spaceList(p.Params))
@@ -332,12 +357,12 @@ func (p *Program) SpecLines() []string {
 			add("P %d ptasks %s pos=%d group=%d", p.PID, tyList(g.Ks), g.Pos, g.G)
 		}
 		for _, s := range p.Slices {
-			add("P %d slice %d pos=%d idx=%d ctx=%d err=%d len=%s end=%d endctx=%d enderr=%d named=%d elem=%d form=%s",
-				p.PID, s.S, s.Pos, b2i(s.Idx), b2i(s.Ctx), b2i(s.Err), lenStr(s.Len), b2i(s.End), b2i(s.EndCtx), b2i(s.EndErr), b2i(s.Named), s.Elem, s.Form)
+			add("P %d slice %d pos=%d idx=%d ctx=%d err=%d len=%s end=%d endctx=%d enderr=%d named=%d elem=%d form=%s param=%d assignable=%d",
+				p.PID, s.S, s.Pos, b2i(s.Idx), b2i(s.Ctx), b2i(s.Err), lenStr(s.Len), b2i(s.End), b2i(s.EndCtx), b2i(s.EndErr), b2i(s.Named), s.Elem, s.Form, s.Param, b2i(s.Assign))
 		}
 		for _, m := range p.Maps {
-			add("P %d map %d pos=%d ctx=%d err=%d len=%s end=%d endctx=%d enderr=%d key=%d val=%d form=%s",
-				p.PID, m.M, m.Pos, b2i(m.Ctx), b2i(m.Err), lenStr(m.Len), b2i(m.End), b2i(m.EndCtx), b2i(m.EndErr), m.Key, m.Val, m.Form)
+			add("P %d map %d pos=%d ctx=%d err=%d len=%s end=%d endctx=%d enderr=%d key=%d val=%d form=%s kparam=%d vparam=%d assignable=%d",
+				p.PID, m.M, m.Pos, b2i(m.Ctx), b2i(m.Err), lenStr(m.Len), b2i(m.End), b2i(m.EndCtx), b2i(m.EndErr), m.Key, m.Val, m.Form, m.KParam, m.VParam, b2i(m.Assign))
 		}
 		coe := p.COE
 		if coe == "" {
@@ -426,6 +451,13 @@ func parseConc(s string) int {
 }
 
 func atoi(s string) int { n, _ := strconv.Atoi(s); return n }
+
+func atoiOr(kv map[string]string, key string, def int) int {
+	if v, ok := kv[key]; ok {
+		return atoi(v)
+	}
+	return def
+}
 
 func parseKVList(s string) map[int]string {
 	m := map[int]string{}
@@ -523,6 +555,7 @@ func ParseFile(lines []string) ([]*Program, error) {
 					p.Quirk = kv["quirk"]
 				}
 				p.Site = kv["site"]
+				p.ModSub = kv["modsubset"] == "1"
 			case "params":
 				for _, x := range rest {
 					p.Params = append(p.Params, atoi(x))
@@ -560,12 +593,13 @@ func ParseFile(lines []string) ([]*Program, error) {
 				p.Slices = append(p.Slices, &Slice{S: atoi(rest[0]), Pos: atoi(kv["pos"]), Idx: kv["idx"] == "1",
 					Ctx: kv["ctx"] == "1", Err: kv["err"] == "1", Len: parseLen(kv["len"]), End: kv["end"] == "1",
 					EndCtx: kv["endctx"] == "1", EndErr: kv["enderr"] == "1", Named: kv["named"] == "1",
-					Elem: atoi(kv["elem"]), Form: kv["form"]})
+					Elem: atoi(kv["elem"]), Form: kv["form"], Param: atoiOr(kv, "param", atoi(kv["elem"])), Assign: kv["assignable"] != "0"})
 			case "map":
 				kv := parseKV(rest[1:])
 				p.Maps = append(p.Maps, &Map{M: atoi(rest[0]), Pos: atoi(kv["pos"]), Ctx: kv["ctx"] == "1",
 					Err: kv["err"] == "1", Len: parseLen(kv["len"]), End: kv["end"] == "1",
-					EndCtx: kv["endctx"] == "1", EndErr: kv["enderr"] == "1", Key: atoi(kv["key"]), Val: atoi(kv["val"]), Form: kv["form"]})
+					EndCtx: kv["endctx"] == "1", EndErr: kv["enderr"] == "1", Key: atoi(kv["key"]), Val: atoi(kv["val"]), Form: kv["form"],
+					KParam: atoiOr(kv, "kparam", atoi(kv["key"])), VParam: atoiOr(kv, "vparam", atoi(kv["val"])), Assign: kv["assignable"] != "0"})
 			case "opts":
 				kv := parseKV(rest)
 				p.Conc = parseConc(kv["conc"])
